@@ -16,40 +16,54 @@ EXTENDS Cell, TLC, IOUtils
 
 MaxW == atoi(IOEnv.MAXW)
 
-VARIABLES w, n, d
-vars == <<w, n, d>>
+VARIABLES w, n, d, phase
+vars == <<w, n, d, phase>>
 
 Vals(W) == {CFromInt(k, W) : k \in 0..(2 ^ W - 1)}
-Init == w \in 1..MaxW /\ n \in Vals(w) /\ d \in Vals(w)
-Next == UNCHANGED vars
+\* the operand pairs are enumerated in two steps (width, then n, then d) so that TLC's workers
+\* share the work: the invariants are only meaningful - and only evaluated - on complete pairs
+Init == w \in 1..MaxW /\ n = CZero(w) /\ d = CZero(w) /\ phase = "w"
+PickN == phase = "w" /\ n' \in Vals(w) /\ phase' = "n" /\ UNCHANGED <<w, d>>
+PickD == phase = "n" /\ d' \in Vals(w) /\ phase' = "pair" /\ UNCHANGED <<w, n>>
+Next == PickN \/ PickD
 Spec == Init /\ [][Next]_vars
+Pair == phase = "pair"
 
 \* brute force: the set of all x with x*d = n
 Sols == {x \in Vals(w) : CMul(x, d, w) = n}
 Smallest(S) == CHOOSE x \in S : \A y \in S : ~CLt(y, x)
 
-DivMatchesBruteForce ==
-  IF Sols = {} THEN CDiv(n, d, w) = NoCell ELSE CDiv(n, d, w) = Smallest(Sols)
-ContractsMatchBruteForce ==
-  /\ (Sols = {}) = DivContractNone(n, d, w)
-  /\ (Sols # {}) = DivSolvable(n, d, w)
-  /\ Sols # {} => \A r \in Vals(w) : DivContractSome(r, n, d, w) = (r = Smallest(Sols))
-InvOK == InvContract(n, CInv(n, w), w)
+DivMatchesBruteForceBody ==
+  LET sols == Sols IN
+  IF sols = {} THEN CDiv(n, d, w) = NoCell ELSE CDiv(n, d, w) = Smallest(sols)
+ContractsMatchBruteForceBody ==
+  LET sols == Sols
+      sm   == IF sols = {} THEN NoCell ELSE Smallest(sols) IN
+  /\ (sols = {}) = DivContractNone(n, d, w)
+  /\ (sols # {}) = DivSolvable(n, d, w)
+  /\ sols # {} => \A r \in Vals(w) : DivContractSome(r, n, d, w) = (r = sm)
+InvOKBody == InvContract(n, CInv(n, w), w)
 
 RECURSIVE PowRep(_, _, _)
 PowRep(b, k, W) == IF k = 0 THEN COne(W) ELSE CMul(b, PowRep(b, k - 1, W), W)
-PowOK == CPow(n, d, w) = PowRep(n, CToInt(d, w), w)
+PowOKBody == CPow(n, d, w) = PowRep(n, CToInt(d, w), w)
 
 \* shifts and trailing zeros against plain integer arithmetic
-ShiftOK ==
+ShiftOKBody ==
   LET a == CToInt(n, w)  k == CToInt(d, w) % (w + 2) IN
   /\ CToInt(CShr(n, k, w), w) = (IF k >= w THEN 0 ELSE a \div (2 ^ k))
   /\ CToInt(CShl(n, k, w), w) = (IF k >= w THEN 0 ELSE (a * (2 ^ k)) % (2 ^ w))
   /\ (a # 0 => a % (2 ^ CTz(n, w)) = 0 /\ (a \div (2 ^ CTz(n, w))) % 2 = 1)
   /\ (a = 0 => CTz(n, w) = w)
-RingOK ==
+RingOKBody ==
   LET a == CToInt(n, w)  b == CToInt(d, w) IN
   /\ CToInt(CAdd(n, d, w), w) = (a + b) % (2 ^ w)
   /\ CToInt(CMul(n, d, w), w) = (a * b) % (2 ^ w)
   /\ CToInt(CNeg(n, w), w) = (2 ^ w - a) % (2 ^ w)
+DivMatchesBruteForce == Pair => DivMatchesBruteForceBody
+ContractsMatchBruteForce == Pair => ContractsMatchBruteForceBody
+InvOK == Pair => InvOKBody
+PowOK == Pair => PowOKBody
+ShiftOK == Pair => ShiftOKBody
+RingOK == Pair => RingOKBody
 =============================================================================
